@@ -81,6 +81,7 @@ package keeper
 //@ ensures [unknown_dispute_rejected] !old(has(reporter.DisputedDelegationAmounts, bytes(hashId))) ==> err != nil && nothing_written()
 //@ loop 0 "for _, source := range snapshot.TokenOrigins"
 //@ loop 0 invariant [returned_stake_is_delegated_from_the_bonded_pool] called(Delegate) ==> arg(Delegate, tokenSrc) == 3 && !arg(Delegate, subtractAccount)
+//@ loop 0 invariant [with_a_purse_each_share_is_cut_off_never_rounded_up] $i > 0 && amt > old(drec(hashId).Total) && called(Delegate) ==> arg(Delegate, bondAmt) == dectrunc(decmul(decquo(old(drec(hashId).TokenOrigins[$i - 1].Amount) * 1000000000000000000, old(drec(hashId).Total) * 1000000000000000000), amt * 1000000000000000000))
 //@ loop 0 invariant [returned_so_far] amt <= old(drec(hashId).Total) ==> argsum(Delegate, bondAmt) == old(tsum(drec(hashId).TokenOrigins, $i))
 //@ loop 0 invariant [only_pool_accounts_touched] forall a addr :: a != module("bonded_tokens_pool") && a != module("not_bonded_tokens_pool") ==> bank.bal[a] == old(bank.bal[a])
 //@ loop 0 invariant [record_untouched_while_returning] reporter.DisputedDelegationAmounts == old(reporter.DisputedDelegationAmounts)
